@@ -1,0 +1,6 @@
+//go:build !verif
+
+package serveruser
+
+// verifAfterAttempt is a no-op unless the "verif" build tag is set.
+func verifAfterAttempt() {}
